@@ -47,10 +47,21 @@ depths of raw containers, and demands that every node ends in exactly one
 place; the history alphabets carry the same inputs for the value classes
 whose source denotes one object (ALIAS_VALUES).
 
-case_id = <container>.<operation>[@context][!raised][[key:<family>]]/<violation kind>;
+A node is not only a Dict / List / plain Object: `drv_node_kinds` runs the
+same alphabet over trees that store inferential nodes (pg.Ref,
+ValueFromParentChain: the stored form differs from the evaluated form; the
+node that has the parent and the path is the stored one, the target of a Ref
+stays in the tree that stores it) and pyglove's own pg.Object subclasses that
+override the tree hooks (hyper primitives, functor objects, DNA, DNASpec),
+with values of the same kinds, on the containers that hold them and on the
+containers inside them.
+
+case_id = <container>.<operation>[@context][!raised][[key:<family>]|[nodes:<family>]]/<violation kind>;
 the value class / index of the input goes to the key only; `[key:<family>]` is
 present only if the violation needs keys of that family (the same history over
-identifier-like keys is clean).  Per step only the most
+identifier-like keys is clean), `[nodes:<family>]` only if it needs nodes of
+that family (the same history over the control tree nk/plain is clean or has
+no counterpart there).  Per step only the most
 severe kind of tree violation is reported (two-places > wrong-parent >
 no-parent > stale-path > lookup > sym_root), plus at most one violation about
 the removed node.  A history is not extended past a step that broke a tree
@@ -300,9 +311,167 @@ for _label, _fam, _K, _N in KEY_CLASSES:
     KEY_KINDS.append('ko/' + _label)
 
 
+
+# --------------------------------------------------------------------------
+# Node kinds.  "Symbolic node" is not only pg.Dict / pg.List / a plain
+# pg.Object: the trees below store, next to ordinary nodes,
+#   nk/inferential  nodes whose EVALUATED form differs from the stored form:
+#                   pg.Ref (target: a node of another tree / an element / a
+#                   List / a root of another tree / a parentless node / a raw
+#                   list) and pg.symbolic.ValueFromParentChain (resolving to a
+#                   node of the same tree, to the target of a Ref, or to
+#                   nothing -- evaluation raises).  A Ref is a LEAF: the node
+#                   that is stored, has the parent and the path is the Ref;
+#                   its target stays where it is stored.
+#   nk/hyper        pyglove's own pg.Object subclasses that override the tree
+#                   hooks (_update_children_paths, _on_path_change,
+#                   _on_parent_change, _sym_clone, sealed by default): pg.oneof
+#                   with constant symbolic / numeric / nested candidates,
+#                   pg.manyof, pg.permutate, pg.floatv, a functor object,
+#                   pg.DNA, a DNASpec.
+#   nk/plain        control: the same shape with plain nodes.
+# The whole list / dict / object alphabet runs on the containers that hold such
+# nodes (and on containers inside them), with values of the same kinds (fresh,
+# parented, inside objects and raw containers).  A violation that the same
+# history does not show on nk/plain carries `[nodes:<family>]` in its id.
+# --------------------------------------------------------------------------
+
+_VP = 'pg.symbolic.ValueFromParentChain()'
+_NK_TREE = (
+    "s = pg.Dict(g=pg.Dict(h=1)); "
+    "ext = pg.Dict(k=pg.Dict(v=pg.Dict(w=1)), j=[pg.Dict(e=1)], o=A(x=pg.Dict(u=1)), h=#X0); "
+    "t = ext.k; "
+    "r = pg.Dict(l=[#X1, A(x=#X2, y=[#X3, {'q': 1}]), 7, #X4, {'c': #X5}], "
+    "d={'m': #X6, 'k': [#X7, 2, {'z': 1}], 'n': {'z': 1}}, "
+    "o=A(x=#X8, y={'l': #X9, 'u': [1]}))\n")
+_NK_ONEOF = 'pg.oneof([pg.Dict(m=1), 2])'
+# family, nodes of the tree (#X0..#X9), values nk1..nk11
+NK_CLASSES = {
+    'plain': (None, [
+        'pg.Dict(hh=1)', 'A(x=pg.Dict(p=1))', 'pg.Dict(e=1)', 'pg.List([pg.Dict(a=1)])',
+        "pg.List([1, {'a': 1}])", 'pg.Dict(b=pg.Dict(c=1))', 'A(x=1)', "A(x={'a': [1]})",
+        'pg.List([pg.Dict(i=1)])', 'pg.Dict(i=pg.Dict(j=1))'], [
+            'A(x=pg.Dict(m=1))', 'pg.List([pg.Dict(a=1)])', 'pg.Dict(b=pg.Dict(c=1))',
+            'pg.Dict(f=1)', 'pg.Dict()', 'A(x=pg.Dict(m=1), y=[A(x=1)])',
+            "{'n': [pg.Dict(m=1)], 'l': pg.Dict()}", "A(x={'a': [1]})", 'ext.h',
+            'pg.List([pg.Dict(i=1)])', 'pg.Dict(i=pg.Dict(j=1))']),
+    'inferential': ('nodes:inferential', [
+        'pg.Ref(s)', 'pg.Ref(ext.k)', 'pg.Ref(ext.j[0])', _VP, "pg.Ref([1, {'a': 1}])",
+        'pg.Ref(ext.k.v)', 'pg.Ref(ext.o)', _VP, 'pg.Ref(ext.j)', _VP], [
+            'pg.Ref(t)',                      # nk1 target: child of another tree
+            'pg.Ref(ext.j)',                  # nk2 target: a List of another tree
+            _VP,                              # nk3
+            'pg.Ref({IN})',                   # nk4 target in the same tree (refused)
+            "pg.Ref([1, {'a': 1}])",          # nk5 raw target
+            f'A(x=pg.Ref(t), y=[pg.Ref(ext.j[0]), {_VP}])',   # nk6 inside an object
+            f"{{'n': [pg.Ref(t)], 'l': {_VP}}}",              # nk7 inside raw containers
+            'pg.Ref(ext)',                    # nk8 target: root of another tree
+            'ext.h',                          # nk9 a Ref that has a parent
+            'pg.Ref(s)',                      # nk10 target: a parentless node
+            'pg.Ref(ext.o.x)']),              # nk11 target: member of an object
+    'hyper': ('nodes:hook-overriding', [
+        'pg.oneof([pg.Dict(hh=1), A(x=1)])',
+        'pg.oneof([A(x=pg.Dict(p=1)), A(x=[pg.Dict(q=1)])])', 'pg.oneof([1, 2])',
+        'pg.manyof(2, [pg.Dict(a=1), pg.Dict(a=2), pg.Dict(a=3)])', 'pg.floatv(0.0, 1.0)',
+        'pg.oneof([pg.Dict(b=pg.Dict(bb=1)), pg.oneof([pg.Dict(c=1), 2])])',
+        'pg.permutate([A(x=1), A(x=2)])', f"F(x={{'a': [1]}}, y={_NK_ONEOF})",
+        'pg.DNA([0, 0.5])',
+        'pg.geno.oneof([pg.geno.constant(), pg.geno.constant()])'], [
+            'pg.oneof([A(x=pg.Dict(m=1)), A(x=[pg.Dict(m=2)])])',          # nk1
+            'pg.manyof(2, [pg.Dict(a=1), pg.Dict(a=2), pg.Dict(a=3)])',     # nk2
+            'pg.oneof([pg.Dict(b=1), pg.oneof([pg.Dict(c=1), 2])])',        # nk3 nested
+            'pg.floatv(0.0, 1.0)',                                          # nk4
+            'pg.oneof([1, 2])',                                             # nk5 numeric
+            f'A(x={_NK_ONEOF}, y=[pg.permutate([A(x=1), A(x=2)])])',        # nk6
+            f"{{'n': [{_NK_ONEOF}], 'l': pg.floatv(0.0, 1.0)}}",            # nk7
+            f"F(x={{'a': [1]}}, y={_NK_ONEOF})",                            # nk8 functor
+            'ext.h',                                                        # nk9 parented
+            'pg.DNA([0, 0.5])',                                             # nk10
+            'pg.geno.manyof(2, [pg.geno.constant(), pg.geno.constant(), pg.geno.constant()])']),  # nk11 DNASpec
+}
+NK_KINDS = []
+for _label, (_fam, _nodes, _values) in NK_CLASSES.items():
+  _src = _NK_TREE
+  for _i, _n in enumerate(_nodes):
+    _src = _src.replace(f'#X{_i}', _n)
+  TREES['nk/' + _label] = _src
+  if _fam:
+    NK_KINDS.append('nk/' + _label)
+
+
 def key_family(kind):
-  """None for the base trees and for the control class."""
-  return KEY_CLASS[kind.split('/', 1)[1]][1] if '/' in kind else None
+  """Tag of the tree family that goes to the case id (`key:<family>` for the
+  key classes, `nodes:<family>` for the node kinds); None for the base trees
+  and for the control classes."""
+  if '/' not in kind:
+    return None
+  shape, label = kind.split('/', 1)
+  if shape == 'nk':
+    return NK_CLASSES[label][0]
+  fam = KEY_CLASS[label][1]
+  return f'key:{fam}' if fam else None
+
+
+def nk_values(label):
+  base = [('fresh', 'pg.Dict(n=pg.Dict(m=1))'), ('parented-in-tree', '{IN}'),
+          ('detached', 's'), ('equal-to-stored', '{EQ}')]
+  return base + [(f'nk{i + 1}', v) for i, v in enumerate(NK_CLASSES[label][2])]
+
+
+def nk_alphabet_ops(kind):
+  label = kind.split('/', 1)[1]
+  values = nk_values(label)
+  few = [v for v in values if v[0] in ('fresh', 'detached', 'nk1', 'nk3', 'nk9')]
+  sv = dict(values)
+  ops = []
+  ops += list_ops('r.l', 'r.d.n', True, values=values)
+  ops += list_ops('r.d.k', 'r.l[4]', True, values=values)
+  ops += list_ops('r.l[1].y', 'r.d.n', False, values=few)
+  ops += dict_ops('r.d', 'r.l[4]', True, keys=('m', 'k'), values=values)
+  ops += dict_ops('r.o.y', 'r.d.n', True, keys=('l', 'u'), values=values)
+  ops += dict_ops('r.l[4]', 'r.d.n', False, keys=('c', ''), values=few)
+  ops += dict_ops('r', 'r.d.n', False, keys=('o', 'l'), values=few)
+  ops += object_ops('r.l[1]', 'r.d.n', True, values=values)
+  ops += object_ops('r.o', 'r.d.n', False, values=few)
+  if label == 'hyper':
+    # containers inside the hook-overriding nodes
+    ops += list_ops('r.l[0].candidates', 'r.d.n', True, values=few)
+    ops += list_ops('r.l[1].y[0].candidates', 'r.d.n', False, values=few)
+    ops += object_ops('r.l[0]', 'r.d.n', True, fields=('hints', 'candidates'), values=few)
+    ops += dict_ops("r.l[4].c.candidates[0]", 'r.d.n', True, keys=('b', ''), values=few)
+    ops += object_ops('r.d.k[0]', 'r.d.n', True, values=few)
+    ops += list_ops("r.o.y.l.candidates", 'r.d.n', False, values=few)
+
+  def add(label, src, core=False, ctx=''):
+    ops.append(Op('rebind-deep' + ctx, label, src, core))
+  V, S1, S2, S3 = 'pg.Dict(n=pg.Dict(m=1))', sv['nk1'], sv['nk2'], sv['nk3']
+  MV, INS = 'pg.MISSING_VALUE', 'pg.Insertion'
+  add('several-paths/replace-special', f"r.rebind({{'l[0]': {V}, 'd.m': {V}, 'o.x': {V}, 'l[4].c': {V}}})", True)
+  add('several-paths/set-special', f"r.rebind({{'l[0]': {S1}, 'd.n.z': {S2}, 'o.y.u[0]': {S3}, 'l[1].x': {S1}}})", True)
+  add('several-paths/insert-delete',
+      f"r.rebind({{'l[0]': {INS}({S1}), 'l[3]': {MV}, 'd.k[0]': {MV}, 'l[1].y[0]': {INS}({S2}), 'o.y.l': {MV}}})", True)
+  add('several-paths/insert-delete',
+      f"r.rebind({{'d.k[0]': {INS}({S3}), 'd.k[1]': {MV}, 'l[0]': {MV}}})")
+  add('several-paths', f"r.rebind({{'l[0]': {INS}({S1}), 'd.k[0]': {MV}}}, skip_notification=True)",
+      ctx='@skip_notification')
+  add('several-paths', f"with pg.notify_on_change(False): r.rebind({{'l[0]': {INS}({S1}), 'd.k[0]': {MV}}})",
+      ctx='@notify_off')
+  add('one-path/parented', "r.rebind({'d.n.z': ext.h})", True)
+  add('one-path/move-within', "r.rebind({'d.n.z': r.l.sym_getattr(0), 'l[0]': 1})")
+  ops.append(Op('dict.setitem', 'stored-form-into-other-container',
+                "r.d.n['y'] = r.l.sym_getattr(0)", True))
+  ops.append(Op('list.append', 'stored-form-into-other-container',
+                "r.d.k.append(r.d.sym_getattr('m'))", True))
+  ops.append(Op('pop+setitem', 'reinsert-popped-stored-form',
+                "_p = r.l.sym_getattr(0)\ndel r.l[0]\nr.d.n['y'] = _p", True))
+  ops.append(Op('pop+append', 'reinsert-popped-stored-form',
+                "_p = r.d.sym_getattr('m')\ndel r.d['m']\nr.l.append(_p)", True))
+  if label == 'hyper':
+    add('below-special', f"r.rebind({{'l[0].candidates[0].x': {V}, 'l[4].c.candidates[1].candidates[0]': {V}}})", True)
+    add('below-special', f"r.rebind({{'l[0].candidates[0]': {INS}({S1}), 'd.k[0].y': {V}}})", True)
+    add('below-special', f"r.rebind({{'l[1].y[0].candidates[2]': {V}, 'l[4].c.candidates[0].b': {S1}}})")
+    add('below-special', f"r.rebind({{'d.k[0].x.a': {S3}, 'd.k[0].y': {V}}})")
+  return ops
 
 
 class Op:
@@ -361,7 +530,7 @@ KEY_VALUES = [
      "pg.Dict({#K: pg.List([A(x=pg.Dict({#N: 1}), root_path=pg.KeyPath(['p']))], "
      "root_path=pg.KeyPath([#K, 0]))}, root_path=pg.KeyPath(['q', #N]))"),
 ]
-CORE_VALUES = ('fresh', 'parented-in-tree', 'detached')
+CORE_VALUES = ('fresh', 'parented-in-tree', 'detached', 'nk1', 'nk2', 'nk3')
 # value classes whose source denotes ONE node object however often it is written
 ALIAS_VALUES = ('parented-elsewhere', 'parented-in-tree', 'detached')
 _FN = ('lambda k, v: pg.Dict(rb=pg.Dict(q=1)) if isinstance(v, int) else v, '
@@ -1093,7 +1262,9 @@ def alphabet(kind):
   if kind in _ALPHABETS:
     return _ALPHABETS[kind]
   ops = []
-  if '/' in kind:
+  if kind.startswith('nk/'):
+    ops += nk_alphabet_ops(kind)
+  elif '/' in kind:
     ops += key_alphabet_ops(kind)
   elif kind == 'mixed':
     ops += list_ops('r.l', 'r.d', True)
@@ -1572,6 +1743,8 @@ def _classes_for(body, kind):
     w += CLASS_R + CLASS_S
   if '_boom' in body:
     w += CLASS_BOOM
+  if re.search(r'\bF\(', body):
+    w += CLASS_F
   return w
 
 
@@ -1583,7 +1756,7 @@ def _case_id(step, vkind, former=None, keyfam=None):
   cid = _case_id0(step, vkind, former)
   if keyfam:
     head, tail = cid.rsplit('/', 1)
-    cid = f'{head}[key:{keyfam}]/{tail}'
+    cid = f'{head}[{keyfam}]/{tail}'
   return cid
 
 
@@ -1611,10 +1784,14 @@ def _case_id0(step, vkind, former=None):
 def _control_kinds(kind, ops, upto, wd=None):
   """Violation kinds the control history shows at step `upto` (key trees)."""
   ch = control_history(kind, ops[:upto + 1])
+  if ch is None and kind.startswith('nk/'):
+    # An earlier step works on a container inside a special node (no
+    # counterpart on the control tree): the failing step alone decides.
+    ch = control_history(kind, ops[upto:upto + 1])
   if ch is None:
     return set()
   st = run_history(kind.split('/', 1)[0] + '/plain', ch, wd)
-  if len(st) != upto + 1:
+  if len(st) != len(ch):
     return set()
   last = st[-1]
   return ({last.tree[0]} if last.tree else set()) | {v[0] for v in last.removed}
@@ -1654,7 +1831,7 @@ def _initial_trees(rec, kinds=BASE_KINDS):
   for kind in kinds:
     w = HEAD + _classes_for(TREES[kind], kind) + TREES[kind]
     fam = key_family(kind)
-    sfx = f'[key:{fam}]' if fam else ''
+    sfx = f'[{fam}]' if fam else ''
     env = dict(_ENV_BASE)
     try:
       exec(_SETUP_CODE[kind], env)  # pylint: disable=exec-used
@@ -1825,6 +2002,71 @@ def drv_key_classes(tier, seed):
   return rec.result()
 
 
+def _quick_nk_ops(kind, seed):
+  """Quick tier: every core operation; the operations without a value (all
+  removals, reorderings, refusals) in full on nk/inferential, every other one
+  on nk/hyper; of the others those without flag / context manager, one in 3
+  (nk/hyper: one in 12, every third operation without a value) in turn."""
+  hyper = kind == 'nk/hyper'
+  out = []
+  for i, o in enumerate(alphabet(kind)):
+    if o.core:
+      out.append(o)
+    elif o.vclass is None:
+      if not hyper or (i + seed) % 3 == 0:
+        out.append(o)
+    elif '@' not in o.group and (i + seed) % (12 if hyper else 3) == 0:
+      out.append(o)
+  return out
+
+
+def drv_node_kinds(tier, seed):
+  """The operation alphabet over trees that hold inferential nodes (pg.Ref,
+  ValueFromParentChain) and pyglove's own hook-overriding pg.Object subclasses
+  (hyper primitives, functor objects, DNA, DNASpec)."""
+  quick = tier == 'quick'
+  sizes = '/'.join(f'{k}:{len(alphabet(k))}' for k in NK_KINDS)
+  rec = Recorder(
+      'C01', 'tree well-formedness when the tree holds inferential nodes and '
+      'hook-overriding pg.Object subclasses',
+      scope=('2 trees (+ a control tree of the same shape with plain nodes): '
+             'nk/inferential stores pg.Ref nodes (targets: child / list element / '
+             'List / object member / root of another tree, parentless node, raw '
+             'list) and ValueFromParentChain nodes (resolving to a node of the same '
+             'tree, to the target of a Ref, to nothing) in lists, dicts and objects; '
+             'nk/hyper stores pg.oneof (symbolic / numeric / nested candidates), '
+             'pg.manyof, pg.permutate, pg.floatv, a functor object, pg.DNA and a '
+             'geno DNASpec; alphabet = every list / dict / object mutator on 9 '
+             'containers of the tree (nk/hyper: and on 6 containers inside the '
+             'special nodes) x 15 value classes (4 plain + 11 of the kind: fresh, '
+             'parented, targets of every kind, inside objects / raw containers; 5 on '
+             'the secondary containers), deep rebinds that replace / insert / delete '
+             'special nodes, moves of the stored form, clone / copy / JSON round trips '
+             f'({sizes} statements); '
+             + ('histories of length 1: all core operations, the operations without '
+                'a value (nk/hyper: every third), one in 3 (nk/hyper: 12) of the rest '
+                'without flags; length 2: every core operation (nk/hyper: every other one) followed by one core operation chosen by the seed'
+                if quick else
+                'all histories of length 1; length 2: core x core[seed%8::8]')
+             + '; a violation that the same history shows on the control tree is '
+               'recorded under the id without [nodes:...]'))
+  with _Watchdog(10) as wd:
+    for kind in _initial_trees(rec, ['nk/plain'] + NK_KINDS):
+      if kind == 'nk/plain':
+        continue
+      ops = alphabet(kind)
+      core = [o for o in ops if o.core]
+      if quick:
+        m = 2 * len(core) if kind == 'nk/hyper' else len(core)
+        _enumerate(rec, kind, _quick_nk_ops(kind, seed), [], wd=wd)
+        _enumerate(rec, kind, core, lambda i: core[(i * 7 + seed) % m::m], wd=wd,  # pylint: disable=cell-var-from-loop
+                   record_first=False)
+      else:
+        _enumerate(rec, kind, ops, [], wd=wd)
+        _enumerate(rec, kind, core, core[(seed % 8)::8], wd=wd, record_first=False)
+  return rec.result()
+
+
 def _sig(steps):
   s = steps[-1]
   return (s.op.src, s.tree[0] if s.tree else None,
@@ -1855,19 +2097,21 @@ def drv_histories_random(tier, seed):
   n = 180 if quick else 4000
   nx = 60 if quick else 2000      # trees twins / strict
   nkey = 8 if quick else 150
+  nnk = 25 if quick else 1000     # trees nk/inferential, nk/hyper
   rec = Recorder(
       'C01', 'tree well-formedness after every step of random histories',
       scope=f'{n} seeded histories per tree (4 trees), {nx} per tree twins / '
             f'strict (see drv_histories_exhaustive) and {nkey} per key-class '
-            f'tree ({len(KEY_KINDS)} trees, see drv_key_classes) of length 3..7 '
+            f'tree ({len(KEY_KINDS)} trees, see drv_key_classes), {nnk} per node-kind tree (see drv_node_kinds), of length 3..7 '
             'over the full alphabet; on the 6 trees a statement that breaks the '
             'tree as a single step on the running code is kept with probability '
             '5% only, so that histories get long; failing histories are shrunk greedily')
   with _Watchdog(10) as wd:
-    for kind in _initial_trees(Recorder('C01', '', ''), BASE_KINDS + tuple(KEY_KINDS)):
+    for kind in _initial_trees(Recorder('C01', '', ''), BASE_KINDS + tuple(KEY_KINDS) + tuple(NK_KINDS)):
       ops = alphabet(kind)
       r = rng(seed, 'c01-random-' + kind)
-      for _ in range(nkey if '/' in kind else nx if kind in EXTRA_KINDS else n):
+      for _ in range(nnk if kind in NK_KINDS else nkey if '/' in kind
+                     else nx if kind in EXTRA_KINDS else n):
         k = r.randint(3, 7)
         hist = []
         while len(hist) < k:
@@ -2031,6 +2275,7 @@ class V(pg.Object):
   allow_symbolic_assignment = True
 
 
+_ENV_BASE['F'] = F
 _D = pg.typing.Dict().noneable()
 
 
@@ -2547,7 +2792,7 @@ def drv_one_call_aliasing(tier, seed):
 
 
 DRIVERS = [drv_histories_exhaustive, drv_histories_random, drv_key_classes,
-           drv_self_insertion, drv_one_call_aliasing]
+           drv_self_insertion, drv_one_call_aliasing, drv_node_kinds]
 
 
 def replay(rec):
